@@ -154,6 +154,14 @@ class _Proxy(object):
             # ssh: octets left in the channel buffer now that paramiko's transport thread has been joined
             s._plog_add(lab, s._chan_buffered() if lab == 'TransportClose' else None)
         return r
+    def shutdown(self, *a, **k):
+        # sockets only: TLS/Unix close() shut the socket down before closing it (that is what wakes a read in progress);
+        # a successful shutdown is logged, a failing one (EBADF after close, ENOTCONN) raises and leaves no entry
+        s = object.__getattribute__(self, '_s')
+        with s._plock:
+            r = object.__getattribute__(self, '_o').shutdown(*a, **k)
+            s._plog_add('SockShutdown')
+        return r
     def is_active(self):
         # paramiko transport only: `if self._transport.is_active()` in SSHSession.close decides whether it is closed
         s = object.__getattribute__(self, '_s')
@@ -241,6 +249,7 @@ def probe_class(kind):
         def __init__(self, dh):
             self._plock = threading.RLock()
             self._plog = []
+            self._ptimes = []                 # monotonic time of every log entry (same index as _plog)
             self._pv = {}
             self.close_returned_at = []       # monotonic time of every close() return (client threads only)
             self.close_raised = []
@@ -253,7 +262,7 @@ def probe_class(kind):
         # ---- log
         def _plog_add(self, lab, arg=None):
             with self._plock:
-                self._plog.append((lab, arg, threading.current_thread() is self))
+                self._plog.append((lab, arg, threading.current_thread() is self)); self._ptimes.append(now())
         def _chan_buffered(self):
             ch = unwrap(self._pv.get('channel'))
             try: return len(ch.in_buffer) if ch is not None else 0
